@@ -58,6 +58,12 @@ def check_record(rec, Tfull, exp_set, explicit, acc_bad, peak_unique, sparse=Fal
     if explicit is not None:
         if ch != [int(c) for c in explicit]:
             acc_bad.append(('channel_ids', 'not-the-explicit-list', list(explicit), ch))
+        # entry j of the amplitude vector is column j's peak-to-peak amplitude (the ordering clause
+        # cannot apply to a caller-ordered list, the alignment clause can)
+        a_cols = ptp(tpl) if tpl.size else np.zeros(0)
+        if amp.shape != (len(ch),) or not np.allclose(amp, a_cols, rtol=1e-6, atol=1e-6 * scale):
+            acc_bad.append(('amplitude', 'not-aligned-with-columns,explicit-list', describe(a_cols),
+                            describe(amp)))
         return
     if len(set(ch)) != len(ch):
         acc_bad.append(('channel_ids', 'duplicates', 'distinct', ch))
@@ -276,7 +282,8 @@ def profiles(nc, tier, seed):
 
 def dense_cases(ctx):
     cases = []
-    geos = [('line', 4, 'absent'), ('grid', 6, 'absent'), ('twoshank', 6, 'two'), ('col14', 14, 'absent')]
+    geos = [('line', 4, 'absent'), ('grid', 6, 'absent'), ('twoshank', 6, 'two'), ('col14', 14, 'absent'),
+            ('twoshank_close', 6, 'two'), ('twoshank_close', 14, 'two')]
     for geo, nc, sh in geos:
         prof = profiles(nc, ctx.tier, ctx.seed)
         for i0 in range(0, len(prof), 60):
